@@ -239,7 +239,98 @@ class Liveness(Monitor):
             r.report("C09", "deadlock:" + "->".join(r.world.deadlock), f"cyclic wait without timeout: {r.world.deadlock}")
 
 
-SETTLED_MONITORS = [C01, C02, C05i, C06a, C07a, C08, C12a, C13a, C15a, C17a, Liveness]
+class Timed(Monitor):
+    """Trace analyses at the end of a run (virtual timestamps): C02 (dosing off within 2 s of entering a no-treatment phase),
+    C06 (b) post-run flow and (c) rest period, C07 bounded backwash cycle."""
+
+    pid = "C06"
+
+    def finish(self, r):
+        import configparser
+        import os
+
+        from .system import REPO
+
+        c = configparser.ConfigParser()
+        c.read(os.path.join(REPO, "config.ini"))
+        d_eco, d_open, recover = float(c["heating"]["delay_to_eco"]), float(c["heating"]["delay_to_open"]), float(c["heating"]["recover_period"])
+        s = r.sys
+        pin = {n: s.pins[n][0] for n in ("heating", "ph", "cl", "drain", "backwash")}
+        var = s.pins["variable"]
+        fstate, hstate = "halt", "halt"
+        heat_off_sched = None      # instant the heat pump was switched off at the end/interruption of a SCHEDULED run
+        heat_off_any = None
+        heat_halted_since_off = True
+        speed = 0
+        levels = {}
+        no_treat_since = None
+        wash_start = None
+        bw = rinse = None
+        set_bw, set_rinse = 120.0, 60.0
+        for (t, kind, data) in r.world.log:
+            if kind == "mqtt":
+                try:
+                    if data[0] == "/settings/filtration/backwash/backwash_duration" and 0 <= float(data[1]) <= 300:
+                        set_bw = float(int(float(data[1])))
+                    if data[0] == "/settings/filtration/backwash/rinse_duration" and 0 <= float(data[1]) <= 300:
+                        set_rinse = float(int(float(data[1])))
+                except (ValueError, TypeError):
+                    pass
+                continue
+            if kind == "publish" and data[0] == "/status/filtration/state":
+                prev = fstate
+                fstate = data[1]
+                if fstate == "halt":
+                    heat_off_sched = None
+                nt = fstate in ("halt", "closing", "opening", "eco_waiting", "eco_tank", "standby_boost", "overflow_boost", "sweep", "backwash", "rinse", "wintering_stir", "wintering_waiting") or str(fstate).startswith(("closing_", "opening_"))
+                if nt and no_treat_since is None:
+                    no_treat_since = t
+                if not nt:
+                    no_treat_since = None
+                if fstate == "backwash" and prev != "backwash":
+                    wash_start = t
+                    bw, rinse = set_bw, set_rinse
+                if fstate == "rinse":
+                    rinse = max(rinse or 0, set_rinse)  # the rinse duration is read when the rinse phase is entered
+                if wash_start is not None and fstate not in ("backwash", "rinse"):
+                    if fstate != "halt" and bw is not None and rinse is not None:
+                        limit = bw + rinse + 4 + 4
+                        if (t - wash_start) / 1e6 > limit:
+                            r.report("C07", "backwash-cycle-too-long", f"backwash cycle lasted {(t - wash_start) / 1e6:.0f} s (limit {limit:.0f} s)")
+                    wash_start = None
+            elif kind == "publish" and data[0] == "/status/heating/state":
+                hstate = data[1]
+                if hstate == "halt":
+                    heat_halted_since_off = True
+            elif kind == "gpio":
+                p, v = data
+                was = levels.get(p, True)
+                levels[p] = v
+                if p == pin["heating"]:
+                    if v is True and was is False:  # de-energised (was energised)
+                        heat_off_any = t
+                        heat_halted_since_off = False
+                        if fstate in ("heating_running", "heating_delay"):
+                            heat_off_sched = t
+                    elif v is False:
+                        if heat_off_any is not None and not heat_halted_since_off and (t - heat_off_any) / 1e6 < recover - 1:
+                            r.report("C06", "heat-pump-restarted-before-recover-period", f"heat pump switched on again {(t - heat_off_any) / 1e6:.0f} s after it was switched off (recover period {recover:.0f} s, no halt in between)")
+                if p in var:
+                    lv = [levels.get(x, True) for x in var]
+                    on = [i for i, x in enumerate(lv) if not x]
+                    new_speed = on[0] if len(on) == 1 else 0
+                    if new_speed == 0 and speed > 0 and heat_off_sched is not None and fstate != "halt":
+                        need = d_eco if fstate in ("eco_compute", "eco_waiting", "eco_normal", "eco_tank") else d_open
+                        if (t - heat_off_sched) / 1e6 < need - 2:
+                            r.report("C06", "pump-stopped-too-early-after-heating", f"circulation pump stopped {(t - heat_off_sched) / 1e6:.1f} s after the heat pump was switched off (configured {need:.0f} s), filtration {fstate}")
+                        heat_off_sched = None
+                    speed = new_speed
+            elif kind == "arduino" and data in ("open", "close"):
+                if heat_off_sched is not None and fstate != "halt" and (t - heat_off_sched) / 1e6 < d_open - 2:
+                    r.report("C06", "cover-moved-too-early-after-heating", f"cover command {data} {(t - heat_off_sched) / 1e6:.1f} s after the heat pump was switched off (configured {d_open:.0f} s)")
+
+
+SETTLED_MONITORS = [C01, C02, C05i, C06a, C07a, C08, C12a, C13a, C15a, C17a, Liveness, Timed]
 
 
 def all_monitors():
